@@ -1,4 +1,4 @@
-import FpgoVerif.Model.C02
+import FpgoVerif.Model.C02Core
 /-! C02 — reflective checker for the integer → integer cells of the extracted conversion table, and its
     soundness proof (for every value of the source type). -/
 namespace FpgoVerif.C02
